@@ -1,6 +1,7 @@
 import Driver.Proto
 import CifModel.Model.Ladder
 import CifModel.Model.LadderMap
+import CifModel.Model.LadderTree
 /-
   family `ladder` (C17): allocation/free pattern of three library functions under one failed allocation.
     ladder dup <n> <k>                      dup_ustrings on n strings, k-th allocation fails (0 = none)
@@ -19,6 +20,9 @@ import CifModel.Model.LadderMap
                                             <key> = <orig-hex>[:<norm-hex>]; answers carry ` items=<n>` (entries afterwards)
     ladder deser { <key-hex> <shape> … } <k>  cif_value_deserialize of the blob of a table value (entry values without tables)
     ladder namesnorm <n> <k>                cif_loop_get_names_internal(normalize = 1) on a stored loop with n item names
+    ladder vclone <vshape…> <k>             cif_value_clone of ANY value (Model/LadderTree `cloneV`): tables at any depth
+    ladder vdeser <vshape…> <k>             cif_value_deserialize of the blob of ANY list / table value (`deserV`)
+                                            vshape tokens: S | C | M0 | M1 | [ vshape* ] | { (<key-hex> vshape)* }
     ladder names <n> <k>                    cif_loop_get_names on a stored loop with n item names (the code as it is:
                                             getNamesPinned)
   shape tokens: S (unknown/na) | C (char) | M0 | M1 (number without / with su) | [ shape* ]
@@ -66,6 +70,44 @@ mutual
       match toD e, toDs es with
       | some a, some b => some (a :: b)
       | _, _ => none
+end
+
+mutual
+  /-- value trees: as `parseShape`, plus tables `{ <key-hex> <vshape> … }` at any depth -/
+  def parseV : Nat → List String → Option (VShape × List String)
+    | 0, _ => none
+    | fuel + 1, t :: rest =>
+      if t == "S" then some (.scalar, rest)
+      else if t == "C" then some (.chr, rest)
+      else if t == "M0" then some (.numb false, rest)
+      else if t == "M1" then some (.numb true, rest)
+      else if t == "[" then (parseVs fuel rest).map (fun (es, r) => (.lst es, r))
+      else if t == "{" then (parseVEntries fuel rest).map (fun (es, r) => (.tbl es, r))
+      else none
+    | _ + 1, [] => none
+  def parseVs : Nat → List String → Option (List VShape × List String)
+    | 0, _ => none
+    | fuel + 1, toks =>
+      match toks with
+      | [] => none
+      | t :: rest =>
+        if t == "]" then some ([], rest) else
+        match parseV fuel toks with
+        | none => none
+        | some (sh, r) => (parseVs fuel r).map (fun (es, r') => (sh :: es, r'))
+  def parseVEntries : Nat → List String → Option (List (List Nat × VShape) × List String)
+    | 0, _ => none
+    | fuel + 1, toks =>
+      match toks with
+      | [] => none
+      | t :: rest =>
+        if t == "}" then some ([], rest) else
+        match unhex t with
+        | none => none
+        | some key =>
+          match parseV fuel rest with
+          | none => none
+          | some (sh, r) => (parseVEntries fuel r).map (fun (es, r') => ((key, sh) :: es, r'))
 end
 
 def isort (l : List Nat) : List Nat := l.foldr ins []
@@ -187,6 +229,23 @@ def handle : Handler
           let k ← k.toNat?
           let (o, st) := clone k sh
           pure (summary (if o.isSome then OK else MEMORY_ERROR) st.evs)
+      | _ => none
+  | "vclone" :: rest => do                      -- any value tree (Model/LadderTree)
+      let (sh, r) ← parseV (rest.length + 1) rest
+      match r with
+      | [k] => do
+          let k ← k.toNat?
+          let (o, st) := cloneV k sh
+          pure (summary (if o.isSome then OK else MEMORY_ERROR) st.evs)
+      | _ => none
+  | "vdeser" :: rest => do                      -- the blob of any list / table value
+      let (sh, r) ← parseV (rest.length + 1) rest
+      match r with
+      | [k] => do
+          let k ← k.toNat?
+          let b ← (match sh with | .lst es => some (VBlob.lst es) | .tbl es => some (VBlob.tbl es) | _ => none)
+          let (rc, _, st) := deserV k b
+          pure (summary rc st.evs ++ s!" code={rc}")
       | _ => none
   | "insert" :: full :: rest => do
       let full ← parseBool full
